@@ -89,12 +89,12 @@ c.requires(SERVER_WF, 'server-wf')
 c.requires("transport == 'polling' or transport == 'websocket'", 'transport')
 c.requires("'connect' in self.handlers and handler_accepts(self.handlers['connect'], 2)",
            'connect-handler-registered')
-ARMED = ("len(spawned) > len(old(spawned)) + (1 if old(self.start_service_task) else 0) and "
-         "task_name(spawned[len(old(spawned)) + (1 if old(self.start_service_task) else 0)]) == "
-         "'_send_ping'")
-c.may_raise('Exception', "transport == 'websocket'", label='websocket-driver-error',
-            ensures=[('heartbeat-armed-at-open', ARMED)], props=['C07', 'C16'])
-c.ensures('heartbeat-armed-at-open', ARMED, props=['C07', 'C16'])
+# C07: the heartbeat is armed at the OPEN: when the connect handler is about to run, the last
+# background task started is this session's _send_ping (PING one ping_interval after the OPEN)
+c.check_before("ret = self._trigger_event('connect'", 'heartbeat-armed-at-open',
+               "len(spawned) > len(old(spawned)) and "
+               "spawned[len(spawned) - 1] == mk_task('_send_ping', s)", props=['C07', 'C16'])
+c.may_raise('Exception', "transport == 'websocket'", label='websocket-driver-error')
 c.ensures('id-issued', 'len(csprng) == len(old(csprng)) + 1', props=['C11', 'C17'])
 c.ensures('only-the-new-id-is-touched', 'dict_del(self.sockets, ' + NEW_SID + ') == '
           'dict_del(old(self.sockets), ' + NEW_SID + ')', props=['C11', 'C16'])
@@ -297,6 +297,7 @@ c.cut('if not isinstance(r, dict):', [
      "r['status'] == '405 METHOD NOT FOUND' and " + NOTHING + ')'),
     ('gate-passed', NOT_GATED),
     ('second-upgrade-never-answered', 'not old(' + SECOND_UPGRADE + ')'),
+    ('non-dict-only-when-admitted', 'isinstance(r, dict) or old(refusal(self, environ)) == 0'),
     ('non-dict-only-for-websocket', 'isinstance(r, dict) or old(is_websocket_request(self, environ))'),
     ('status-line', "implies(isinstance(r, dict), r['status'] in ('200 OK', '400 BAD REQUEST', "
      "'401 UNAUTHORIZED', '405 METHOD NOT FOUND'))"),
